@@ -143,6 +143,8 @@ class HavlinClimateNetwork(ClimateNetwork):
         :return: the correlation strength and maximum lag matrices.
         """
         N = self.N
+        #  Work on a copy: anomaly is the memoised array of the shared data
+        anomaly = anomaly.copy()
         self.data.normalize_time_series_array(anomaly)
         anomaly *= self.data.cos_window(anomaly, gamma)
         #  Zero pad windowed data to set the length of each time series to
